@@ -21,6 +21,10 @@ files stored into / retrieved from the cache under (label, hash)); `TRepo.cacheO
   (whose violations stay known findings: unframed rule text, content-only directory hashes).  This rests on the
   regenerated fact that `RuntimeHash` writes, per runtime file, its path hash AND its NUL-terminated destination
   name (`facts_names`), i.e. on the repair of `runtime-hash-omits-file-names` (fix commit in /repo).
+* The theorems use `facts_link`: the path hash RuntimeHash gets for a hard-linked filegroup output comes from the
+  file's current contents, never from an xattr on the inode it shares with a source file (facts from src/fs/hash.go
+  moveOrCopyHash / Hash / hash and src/build/filegroup.go).  `C11_witness_stale_hash_on_shared_inode`: with that fact
+  flipped an in-place edit of such a source leaves a stale cached PASS.
 * The defect as it was: `C11_old_witness_stale_pass` / `C11_old_witness_not_injective` are stated for the OLD fact
   value (`hashesNames := false`): a data dependency whose output is renamed with the same bytes gave a cached PASS
   where a fresh run errors.  `C11_renamed_output_detected` is the same history on the code as it is now.
@@ -46,6 +50,10 @@ theorem facts_verify : TestCache.generatedFacts.verifiesHash = true := by decide
 theorem facts_removes : TestCache.generatedFacts.removesBefore = true := by decide
 theorem facts_rule : TestCache.generatedFacts.hashesRule = true := by decide
 theorem facts_files : TestCache.generatedFacts.hashesFiles = true := by decide
+/-- No stored path hash is trusted on an inode that a filegroup output shares with a user-editable source file
+    (CopyHash marks the destination unconditionally, Hash / hash respect the mark, the filegroup builder always calls
+    CopyHash, RuntimeHash goes through PathHasher.Hash): the hash of a runtime file is a function of its contents. -/
+theorem facts_link : TestCache.generatedFacts.linkXattr = false := by decide
 theorem facts_cmp : Build.generatedFacts.cmpRule = true ∧ Build.generatedFacts.cmpSource = true := by decide
 
 /-- One `plz test` / history in the model at the regenerated facts. -/
@@ -65,7 +73,7 @@ theorem C11_no_fail_reuse (history : List (TOp K A F N C S H A' G (RStamp S' G N
     (∀ q s, (hist exec ruleSer pathSer ruleSerRT outcome history TState.empty).rcache q = some s → s.res = .pass) := by
   have := runHistT_rinv TestCache.generatedFacts ruleSerRT pathSer outcome Build.generatedFacts
     (mvCoded Build.generatedFacts pathSer) rsCoded exec ruleSer
-    (fun (_ : A') (_ : List (N × C)) => True) facts_store history TState.empty (rinv_empty _ _ _ _ _) (rcinv_empty _ _ _ _ _)
+    (fun (_ : A') (_ : List (N × C)) => True) facts_store facts_link history TState.empty (rinv_empty _ _ _ _ _) (rcinv_empty _ _ _ _ _)
     (admHist_true _ _ _ _ _ _ _ _ _ history _)
   exact ⟨fun k s h => (this.1 k s h).1, fun q s h => (this.2 q.1 q.2 s h).2.1⟩
 
@@ -76,11 +84,11 @@ theorem C11_cached_is_pass (history : List (TOp K A F N C S H A' G (RStamp S' G 
         (hist exec ruleSer pathSer ruleSerRT outcome history TState.empty)).2.2 →
       rep.cached = true → rep.res = .pass ∧ rep.runs = 0 := by
   have hinv := runHistT_rinv TestCache.generatedFacts ruleSerRT pathSer outcome Build.generatedFacts (mvCoded Build.generatedFacts pathSer) rsCoded exec ruleSer
-    (fun (_ : A') (_ : List (N × C)) => True) facts_store history TState.empty (rinv_empty _ _ _ _ _) (rcinv_empty _ _ _ _ _)
+    (fun (_ : A') (_ : List (N × C)) => True) facts_store facts_link history TState.empty (rinv_empty _ _ _ _ _) (rcinv_empty _ _ _ _ _)
     (admHist_true _ _ _ _ _ _ _ _ _ history _)
   intro k rep hm hc
-  exact testList_cached_pass TestCache.generatedFacts ruleSerRT pathSer outcome (fun (_ : A') (_ : List (N × C)) => True) facts_store r tsel fl
-    _ _ _ r.repo.targets _ _ hinv.1 hinv.2 (fun _ _ _ _ _ _ _ => trivial) k rep hm hc
+  exact testList_cached_pass TestCache.generatedFacts ruleSerRT pathSer outcome (fun (_ : A') (_ : List (N × C)) => True) facts_store facts_link r tsel fl
+    _ _ _ _ r.repo.targets _ _ hinv.1 hinv.2 (fun _ _ _ _ _ _ _ => trivial) k rep hm hc
 
 /-- "Cached only if a passing run exists for the current pre-image": a cached report means there was a passing
     results file whose recorded hash equals the current runtime hash, or a passing entry in the artifact cache filed
@@ -151,21 +159,22 @@ theorem outcome_eq_fresh_on (P : A' → List (N × C) → Prop)
   have hinv := runHistT_inv TestCache.generatedFacts ruleSerRT pathSer outcome Build.generatedFacts (mvCoded Build.generatedFacts pathSer) rsCoded
     exec ruleSer (mvCoded_ok _ _) (fun _ _ => rfl) hP history TState.empty (inv_empty exec ruleSer pathSer) (invC_empty exec ruleSer pathSer)
   have hrinv := runHistT_rinv TestCache.generatedFacts ruleSerRT pathSer outcome Build.generatedFacts (mvCoded Build.generatedFacts pathSer) rsCoded exec ruleSer
-    P facts_store history TState.empty (rinv_empty _ _ _ _ _) (rcinv_empty _ _ _ _ _) hadmH
+    P facts_store facts_link history TState.empty (rinv_empty _ _ _ _ _) (rcinv_empty _ _ _ _ _) hadmH
   -- both reports are the expected outcomes over the respective plz-out
-  have hL := (testList_spec TestCache.generatedFacts ruleSerRT pathSer outcome P facts_store r tsel fl
+  have hL := (testList_spec TestCache.generatedFacts ruleSerRT pathSer outcome P facts_store facts_link r tsel fl
     (hist exec ruleSer pathSer ruleSerRT outcome history TState.empty).out
     (buildPhase pathSer Build.generatedFacts (mvCoded Build.generatedFacts pathSer) rsCoded exec ruleSer r sel
       (hist exec ruleSer pathSer ruleSerRT outcome history TState.empty).out
       (hist exec ruleSer pathSer ruleSerRT outcome history TState.empty).bcache).1
     (buildPhase pathSer Build.generatedFacts (mvCoded Build.generatedFacts pathSer) rsCoded exec ruleSer r sel
       (hist exec ruleSer pathSer ruleSerRT outcome history TState.empty).out
-      (hist exec ruleSer pathSer ruleSerRT outcome history TState.empty).bcache).2.2 r.repo.targets _ _ hrinv.1 hrinv.2 hadmL).2.2 facts_verify hRT
-  have hF := (testList_spec TestCache.generatedFacts ruleSerRT pathSer outcome P facts_store r tsel ({} : Flags)
+      (hist exec ruleSer pathSer ruleSerRT outcome history TState.empty).bcache).2.2
+    (hist exec ruleSer pathSer ruleSerRT outcome history TState.empty).xh r.repo.targets _ _ hrinv.1 hrinv.2 hadmL).2.2 facts_verify hRT
+  have hF := (testList_spec TestCache.generatedFacts ruleSerRT pathSer outcome P facts_store facts_link r tsel ({} : Flags)
     (fun _ => none)
     (buildPhase pathSer Build.generatedFacts (mvCoded Build.generatedFacts pathSer) rsCoded exec ruleSer r sel (fun _ => none) (fun _ => none)).1
     (buildPhase pathSer Build.generatedFacts (mvCoded Build.generatedFacts pathSer) rsCoded exec ruleSer r sel (fun _ => none) (fun _ => none)).2.2
-    r.repo.targets (fun _ => none) (fun _ => none) (rinv_empty _ _ _ _ _) (rcinv_empty _ _ _ _ _) hadmF).2.2 facts_verify hRT
+    (fun _ => none) r.repo.targets (fun _ => none) (fun _ => none) (rinv_empty _ _ _ _ _) (rcinv_empty _ _ _ _ _) hadmF).2.2 facts_verify hRT
   -- the two plz-outs agree on the closure (C01 / C02: both equal the clean build)
   have hA := buildPhase_clean pathSer Build.generatedFacts (mvCoded Build.generatedFacts pathSer) rsCoded exec ruleSer (mvCoded_ok _ _) (fun _ _ => rfl) facts_cmp hR hP r sel
     _ _ hinv.1 hinv.2 hwf
@@ -182,7 +191,7 @@ theorem outcome_eq_fresh_on (P : A' → List (N × C) → Prop)
     have : c1 = c2 := by rw [l1] at l2; exact Option.some.inj l2
     rw [h1, h2, this]; rfl
   have hE := expected_congr outcome r tsel _ _ (selKeys sel r.repo.targets) hag r.repo.targets hdc
-  show outcomes (testList _ _ _ _ _ _ _ _ _ _ _ _ _).2.2 = outcomes (testList _ _ _ _ _ _ _ _ _ _ _ _ _).2.2
+  show outcomes (testList _ _ _ _ _ _ _ _ _ _ _ _ _ _).2.2 = outcomes (testList _ _ _ _ _ _ _ _ _ _ _ _ _ _).2.2
   exact hL.trans (hE.trans hF.symm)
 
 theorem facts_names : TestCache.generatedFacts.hashesNames = true := by decide
@@ -192,7 +201,10 @@ theorem facts_names : TestCache.generatedFacts.hashesNames = true := by decide
     requested test by `plz test` equals the outcome of a fresh run of the same tree in an empty directory —
     for every deterministic test semantics, given that the rule pre-images (build-time and runtime) and the path
     pre-image are injective (the statements of C08 and C09; the build phase needs them as in C01 / C02).
-    The runtime pre-image itself needs no further hypothesis: names are hashed (`facts_names`). -/
+    The runtime pre-image itself needs no further hypothesis: names are hashed (`facts_names`), and the hash of every
+    runtime file is a function of its CURRENT contents (`facts_link`: no stored hash is trusted on an inode that a
+    filegroup output shares with an editable source file — `C11_witness_stale_hash_on_shared_inode` is what happens
+    otherwise). -/
 theorem C11_outcome_eq_fresh (hR : Function.Injective ruleSer) (hP : Function.Injective pathSer)
     (hRTr : Function.Injective ruleSerRT)
     (history : List (TOp K A F N C S H A' G (RStamp S' G N H))) (r : TRepo K A F N C A' G) (sel tsel : K → Bool) (fl : Flags)
@@ -236,7 +248,7 @@ def tree (outName : Nat) : TRepo Nat Nat Nat Nat Nat Nat Nat :=
   { repo := { files := fun _ => 0, fname := id, outName := fun k => if k = 0 then outName else 100,
               targets := [dep outName, tst] },
     tests := fun k => if k = 1 then some ⟨5, false, true, [.inr 0]⟩ else none,
-    ownName := id, cfg := 0, cacheOn := false }
+    ownName := id, cfg := 0, cacheOn := false, linkOf := fun _ => none }
 def all : Nat → Bool := fun _ => true
 abbrev T := TState Nat Nat Nat Nat Nat (RStamp Nat Nat Nat Nat)
 def runWith (fx : TestCache.Facts) (r : TRepo Nat Nat Nat Nat Nat Nat Nat) (st : T) :=
@@ -277,7 +289,7 @@ def outcomeD (_ : List Nat) (files : List (Nat × Dir)) : Outcome :=
 def tstD : Target Nat Nat Nat := ⟨1, 9, [], []⟩
 def treeD (d : Dir) : TRepo Nat Nat Nat Nat Dir (List Nat) Nat :=
   { repo := { files := fun _ => d, fname := id, outName := id, targets := [tstD] },
-    tests := fun k => if k = 1 then some ⟨[5], false, true, [.inl 3]⟩ else none, ownName := id, cfg := 0, cacheOn := false }
+    tests := fun k => if k = 1 then some ⟨[5], false, true, [.inl 3]⟩ else none, ownName := id, cfg := 0, cacheOn := false, linkOf := fun _ => none }
 def all : Nat → Bool := fun _ => true
 abbrev T := TState Nat Dir Nat Nat (List Nat) (RStamp (List Nat) Nat Nat (List Nat))
 def execD (_ : Nat) (_ : List (Nat × Dir)) : Dir := []
@@ -330,7 +342,7 @@ def tstC : Target Nat Nat Nat := ⟨1, 9, [], []⟩
 def outcomeC (_ : Nat) (files : List (Nat × Nat)) : Outcome := if files.any (·.2 == 7) then .pass else .error
 def treeC (c : Nat) : TRepo Nat Nat Nat Nat Nat Nat Nat :=
   { repo := { files := fun _ => c, fname := id, outName := id, targets := [tstC] },
-    tests := fun k => if k = 1 then some ⟨5, false, true, [.inl 3]⟩ else none, ownName := id, cfg := 0, cacheOn := true }
+    tests := fun k => if k = 1 then some ⟨5, false, true, [.inl 3]⟩ else none, ownName := id, cfg := 0, cacheOn := true, linkOf := fun _ => none }
 abbrev T := TState Nat Nat Nat Nat Nat (RStamp Nat Nat Nat Nat)
 def run (r : TRepo Nat Nat Nat Nat Nat Nat Nat) (st : T) :=
   testAll TestCache.generatedFacts id id outcomeC Build.generatedFacts (mvCoded Build.generatedFacts id) rsCoded (fun _ _ => 0) id r
@@ -346,6 +358,42 @@ theorem C11_cache_restores_earlier_pass :
     (run (treeC 7) TState.empty).2.2 = [(1, some ⟨.pass, false, 1⟩)] ∧
     (run (treeC 8) s1).2.2 = [(1, some ⟨.error, false, 1⟩)] ∧ s2.res 1 = none ∧
     (run (treeC 7) s2).2.2 = [(1, some ⟨.pass, true, 0⟩)] := by
+  decide
+
+namespace WitnessL
+/-! A test whose data file (contents `c`) reaches it through a filegroup: the runtime file named 3 is a HARD LINK of
+    the source inode `ino`.  Editing the source in place keeps `ino`; replacing it (rename) gives a new one.
+    The test passes iff the file holds 7. -/
+def tstL : Target Nat Nat Nat := ⟨1, 9, [], []⟩
+def outcomeL (_ : Nat) (files : List (Nat × Nat)) : Outcome := if files.any (·.2 == 7) then .pass else .error
+def treeL (c ino : Nat) : TRepo Nat Nat Nat Nat Nat Nat Nat :=
+  { repo := { files := fun _ => c, fname := id, outName := id, targets := [tstL] },
+    tests := fun k => if k = 1 then some ⟨5, false, true, [.inl 3]⟩ else none, ownName := id, cfg := 0, cacheOn := false,
+    linkOf := fun n => if n = 3 then some ino else none }
+/-- The facts with the defect in: stored hashes are read from / written to the shared inode. -/
+def badFacts : TestCache.Facts := { TestCache.generatedFacts with linkXattr := true }
+abbrev T := TState Nat Nat Nat Nat Nat (RStamp Nat Nat Nat Nat)
+def runWith (fx : TestCache.Facts) (r : TRepo Nat Nat Nat Nat Nat Nat Nat) (st : T) :=
+  testAll fx id id outcomeL Build.generatedFacts (mvCoded Build.generatedFacts id) rsCoded (fun _ _ => 0) id r
+    (fun _ => true) (fun k => k == 1) {} st
+def sBad : T := (runWith badFacts (treeL 7 0) TState.empty).1
+def sGood : T := (runWith TestCache.generatedFacts (treeL 7 0) TState.empty).1
+end WitnessL
+
+open WitnessL in
+/-- If the path hasher trusted the hash stored on an inode that a filegroup output SHARES with a source file
+    (`linkXattr`, e.g. CopyHash no longer marking destinations under plz-out/): the first `plz test` passes and plants
+    the stored hash; the source is then overwritten IN PLACE (same inode, contents 7 → 8): the stale stored hash is what
+    RuntimeHash sees, the results file still matches, and the old PASS is reported as cached — a fresh run errors.
+    Replacing the file instead (new inode) is detected even then; and on the code as it is (`generatedFacts`) the
+    in-place edit is detected too. -/
+theorem C11_witness_stale_hash_on_shared_inode :
+    (runWith badFacts (treeL 7 0) TState.empty).2.2 = [(1, some ⟨.pass, false, 1⟩)] ∧ sBad.xh 0 = some 7 ∧
+    (runWith badFacts (treeL 8 0) sBad).2.2 = [(1, some ⟨.pass, true, 0⟩)] ∧
+    freshRun badFacts id id outcomeL Build.generatedFacts (mvCoded Build.generatedFacts id) rsCoded (fun _ _ => 0) id (treeL 8 0)
+      (fun _ => true) (fun k => k == 1) = [(1, some ⟨.error, false, 1⟩)] ∧
+    (runWith badFacts (treeL 8 1) sBad).2.2 = [(1, some ⟨.error, false, 1⟩)] ∧
+    (runWith TestCache.generatedFacts (treeL 8 0) sGood).2.2 = [(1, some ⟨.error, false, 1⟩)] := by
   decide
 
 /-! ### Non-vacuity -/
